@@ -39,6 +39,7 @@ PROPS = {
             'pyx12.x12file.X12Writer.Close',
         ],
         'assumed_contracts': ['pyx12.x12file.X12Writer._get_trailer_segment'],
+        'bounded': ['contracts.x12file:bounded_get_trailer_segment'],
         'crosscheck_functions': [],
     },
     'C16': {
